@@ -14,6 +14,7 @@ func TestWorker(t *testing.T) {
 		"C04": C04,
 		"C05": C05,
 		"C07": C07,
+		"C09": C09,
 	}, map[string]sim.Options{
 		"C01": {PanicIsViolation: true},
 		"C02": {PanicIsViolation: true},
@@ -21,5 +22,6 @@ func TestWorker(t *testing.T) {
 		"C04": {PanicIsViolation: true},
 		"C05": {PanicIsViolation: true},
 		"C07": {PanicIsViolation: true},
+		"C09": {PanicIsViolation: true},
 	})
 }
